@@ -591,4 +591,127 @@ theorem lex_renderBinding (k : Text) (v : Expr) (i : Nat) (inl : Bool) (rest : T
       (lexData rest).map ((Tok.ident k :: Tok.eq :: (toksX v ++ [Tok.semi])) ++ ·) :=
   lex_bindingCore k v i inl rest hk hv (fun rest' hr => lex_renderExpr v i true rest' hv hr)
 
+/-! ## From Python values to what the constructed objects hold -/
+
+theorem bindAll_keys : ∀ kvs : List (Text × PyVal), (bindAll kvs).map (·.1) = kvs.map (·.1)
+  | [] => by simp [bindAll]
+  | (k, v) :: rest => by simp [bindAll, bindAll_keys rest]
+
+mutual
+theorem bindValue_readable : ∀ v : PyVal, valReadable v = true → exprReadable (bindValue v) = true
+  | .elem e, h => by simpa [bindValue, exprReadable, valReadable] using h
+  | .dict kvs, h => by
+    simp only [valReadable, Bool.and_eq_true] at h
+    simp only [bindValue, exprReadable, Bool.and_eq_true, bindAll_keys]
+    exact ⟨h.1, bindAll_readable kvs h.2⟩
+theorem bindAll_readable : ∀ kvs : List (Text × PyVal), kvsReadable kvs = true → bsReadable (bindAll kvs) = true
+  | [], _ => by simp [bindAll, bsReadable]
+  | (k, v) :: rest, h => by
+    simp only [kvsReadable, Bool.and_eq_true] at h
+    simp only [bindAll, bsReadable, Bool.and_eq_true]
+    exact ⟨⟨h.1.1, bindValue_readable v h.1.2⟩, bindAll_readable rest h.2⟩
+end
+
+mutual
+theorem denoteX_bindValue : ∀ v : PyVal, denoteX (bindValue v) = denote v
+  | .elem e => by simp [bindValue, denoteX, denote]
+  | .dict kvs => by simp [bindValue, denoteX, denote, denoteBs_bindAll kvs]
+theorem denoteBs_bindAll : ∀ kvs : List (Text × PyVal), denoteBs (bindAll kvs) = denoteKvs kvs
+  | [] => by simp [bindAll, denoteBs, denoteKvs]
+  | (k, v) :: rest => by simp [bindAll, denoteBs, denoteKvs, denoteX_bindValue v, denoteBs_bindAll rest]
+end
+
+theorem fromDict_eq (d : List (Text × PyVal)) : fromDict d = bindValue (.dict d) := by
+  simp [fromDict, bindValue]
+
+theorem valuesCtor_eq (d : List (Text × PyVal)) : valuesCtor d = fromDict d := by
+  simp only [valuesCtor, fromDict, Bool.true_and]
+  by_cases h : d.length = singleBindingCount <;> simp [h]
+
+/-! ## Item assignment -/
+
+theorem contains_eq_false {ks : List Text} {k : Text} : ks.contains k = false ↔ k ∉ ks := by
+  simp
+
+theorem replaceFirst_none : ∀ (bs : List (Text × Expr)) (k : Text) (x : Expr),
+    replaceFirst k x bs = none → k ∉ bs.map (·.1)
+  | [], _, _, _ => by simp
+  | (k', y) :: rest, k, x, h => by
+    simp only [replaceFirst] at h
+    split at h
+    · cases h
+    · rename_i hk
+      simp only [Option.map_eq_none_iff] at h
+      have := replaceFirst_none rest k x h
+      simp only [List.map_cons, List.mem_cons, not_or]
+      exact ⟨fun hc => hk hc.symm, this⟩
+
+theorem replaceFirst_some : ∀ (bs bs' : List (Text × Expr)) (k : Text) (x : Expr),
+    replaceFirst k x bs = some bs' →
+    bs'.map (·.1) = bs.map (·.1) ∧
+    (exprReadable x = true → bsReadable bs = true → bsReadable bs' = true) ∧
+    denoteBs bs' = dictSet (denoteBs bs) k (denoteX x)
+  | [], _, _, _, h => by simp [replaceFirst] at h
+  | (k', y) :: rest, bs', k, x, h => by
+    simp only [replaceFirst] at h
+    split at h
+    · rename_i hk
+      injection h with h; subst h
+      refine ⟨by simp, ?_, by simp [denoteBs, dictSet, hk]⟩
+      intro hx hb
+      simp only [bsReadable, Bool.and_eq_true] at hb ⊢
+      exact ⟨⟨hb.1.1, hx⟩, hb.2⟩
+    · rename_i hk
+      simp only [Option.map_eq_some_iff] at h
+      obtain ⟨r', hr', rfl⟩ := h
+      obtain ⟨h1, h2, h3⟩ := replaceFirst_some rest r' k x hr'
+      refine ⟨by simp [h1], ?_, by simp [denoteBs, dictSet, hk, h3]⟩
+      intro hx hb
+      simp only [bsReadable, Bool.and_eq_true] at hb ⊢
+      exact ⟨hb.1, h2 hx hb.2⟩
+
+theorem keysNodup_append : ∀ (ks : List Text) (k : Text), keysNodup ks = true → k ∉ ks →
+    keysNodup (ks ++ [k]) = true
+  | [], k, _, _ => by simp [keysNodup]
+  | a :: ks, k, h, hk => by
+    simp only [keysNodup, Bool.and_eq_true, Bool.not_eq_true', List.contains_eq_mem, decide_eq_false_iff_not] at h
+    simp only [List.mem_cons, not_or] at hk
+    simp only [List.cons_append, keysNodup, Bool.and_eq_true, Bool.not_eq_true', List.contains_eq_mem,
+      decide_eq_false_iff_not, List.mem_append, List.mem_singleton, not_or]
+    exact ⟨⟨h.1, fun hc => hk.1 hc.symm⟩, keysNodup_append ks k h.2 hk.2⟩
+
+theorem bsReadable_append : ∀ (bs : List (Text × Expr)) (k : Text) (x : Expr), bsReadable bs = true →
+    isDataKey k = true → exprReadable x = true → bsReadable (bs ++ [(k, x)]) = true
+  | [], k, x, _, hk, hx => by simp [bsReadable, hk, hx]
+  | (k', y) :: rest, k, x, hb, hk, hx => by
+    simp only [bsReadable, Bool.and_eq_true] at hb
+    simp only [List.cons_append, bsReadable, Bool.and_eq_true]
+    exact ⟨hb.1, bsReadable_append rest k x hb.2 hk hx⟩
+
+theorem denoteBs_append : ∀ (bs : List (Text × Expr)) (k : Text) (x : Expr), k ∉ bs.map (·.1) →
+    denoteBs (bs ++ [(k, x)]) = dictSet (denoteBs bs) k (denoteX x)
+  | [], k, x, _ => by simp [denoteBs, dictSet]
+  | (k', y) :: rest, k, x, hk => by
+    simp only [List.map_cons, List.mem_cons, not_or] at hk
+    have hne : ¬ k' = k := fun hc => hk.1 hc.symm
+    simp [denoteBs, dictSet, hne, denoteBs_append rest k x hk.2]
+
+theorem setItem_spec (bs : List (Text × Expr)) (ml : Bool) (k : Text) (v : PyVal)
+    (hs : exprReadable (.aset bs ml) = true) (hk : isDataKey k = true) (hv : valReadable v = true) :
+    exprReadable (setItem (.aset bs ml) k v) = true ∧
+    denoteX (setItem (.aset bs ml) k v) = .attrs (dictSet (denoteBs bs) k (denote v)) := by
+  simp only [exprReadable, Bool.and_eq_true] at hs
+  have hx := bindValue_readable v hv
+  simp only [setItem]
+  cases hr : replaceFirst k (bindValue v) bs with
+  | some bs' =>
+    obtain ⟨h1, h2, h3⟩ := replaceFirst_some bs bs' k _ hr
+    simp only [exprReadable, Bool.and_eq_true, h1, denoteX, h3, denoteX_bindValue]
+    exact ⟨⟨hs.1, h2 hx hs.2⟩, trivial⟩
+  | none =>
+    have hnot := replaceFirst_none bs k _ hr
+    simp only [exprReadable, Bool.and_eq_true, List.map_append, List.map_cons, List.map_nil, denoteX]
+    refine ⟨⟨keysNodup_append _ k hs.1 hnot, bsReadable_append bs k _ hs.2 hk hx⟩, ?_⟩
+    rw [denoteBs_append bs k _ hnot, denoteX_bindValue]
+
 end Nima
